@@ -917,7 +917,42 @@ impl Hist {
                 let d2: bool = w.r.gen();
                 let ntl = if nl >= MIN_TICK_INDEX && nl <= MAX_TICK_INDEX { w.ensure_tick_array(p, nl, d1) } else { tl };
                 let ntu = if nu >= MIN_TICK_INDEX && nu <= MAX_TICK_INDEX { w.ensure_tick_array(p, nu, d2) } else { tu };
-                let l = self.gen_liquidity(w, p);
+                let mut l = self.gen_liquidity(w, p);
+                // one time in three: re-use exactly what the old range releases - the new liquidity is bisected on the
+                // exact model so that the new range costs, in one token, precisely the amount the old range returns
+                // (the net transfer of that token is zero although both legs are non-zero)
+                if rnd::chance(&mut w.r, 1, 3) && nl < nu && nl >= MIN_TICK_INDEX && nu <= MAX_TICK_INDEX {
+                    if let Some(pp) = w.bank.data(&pi.position).and_then(codec::Position::decode) {
+                        if pp.liquidity > 0 {
+                            use crate::model::position_amounts;
+                            let pr = |t: i32| sqrt_price_from_tick_index(t);
+                            let (wa, wb) = position_amounts(st.tick_current_index, st.sqrt_price, pp.tick_lower_index, pp.tick_upper_index, pr(pp.tick_lower_index), pr(pp.tick_upper_index), pp.liquidity, false);
+                            let want_a = st.tick_current_index < nu && wa.bits() > 0 && (w.r.gen() || !(st.tick_current_index >= nl && wb.bits() > 0));
+                            let target = if want_a { wa.clone() } else { wb.clone() };
+                            if target.bits() > 0 && target.bits() <= 64 {
+                                let cost = |l: u128| {
+                                    let (a, b) = position_amounts(st.tick_current_index, st.sqrt_price, nl, nu, pr(nl), pr(nu), l, true);
+                                    if want_a { a } else { b }
+                                };
+                                let (mut lo_l, mut hi_l) = (0u128, 1u128 << 110);
+                                if cost(hi_l) >= target {
+                                    while hi_l - lo_l > 1 {
+                                        let mid = lo_l + (hi_l - lo_l) / 2;
+                                        if cost(mid) >= target {
+                                            hi_l = mid;
+                                        } else {
+                                            lo_l = mid;
+                                        }
+                                    }
+                                    if cost(hi_l) == target {
+                                        l = hi_l;
+                                        acc.count("repositions_reusing_exactly_the_released_amount");
+                                    }
+                                }
+                            }
+                        }
+                    }
+                }
                 let ix = b::RepositionLiquidityV2 {
                     whirlpool: pool.key,
                     token_program_a: pool.program_a,
